@@ -573,17 +573,23 @@ def replay(unit, name, model):
     targets = {'CONNECT': ('example.com', 443), 'RESOLVE': ('example.com', 0), 'RESOLVE_PTR': ('1.2.3.4', 0)}
     host, port = targets[req_type]
     if state == 'sent_version':
-        chunks = [c for c in (data0, chunk) if c]
+        pre = [data0]
     elif state == 'sent_request':
-        chunks = [c for c in (b'\x05\x00', data0, chunk) if c]
+        pre = [b'\x05\x00', data0]
     elif state == 'relaying':
-        chunks = [b'\x05\x00', b'\x05\x00\x00\x01' + b'\x00' * 6, chunk]
+        pre = [b'\x05\x00', b'\x05\x00\x00\x01' + b'\x00' * 6]
+    elif state == 'done' and req_type != 'CONNECT':
+        pre = [b'\x05\x00', b'\x05\x00\x00\x01' + b'\x00' * 6]
     else:
-        chunks = [b'\x05\x01', chunk]      # abort
-    disc = (len(chunks) - 1) if handler == 'disconnected' else None
+        pre = [b'\x05\x01']      # abort
+    pre = [c for c in pre if c]
     if handler == 'disconnected':
-        chunks = [c for c in chunks[:-1] if c] or []
+        chunks = pre
         disc = len(chunks) - 1
+    else:
+        # one probe chunk after the model's chunk exposes latent state (bytes still buffered)
+        chunks = pre + [chunk, b'Z']
+        disc = None
     v, P = run_history(req_type, host, port, chunks, disc)
     return {'reproduced': bool(v), 'history': {'req_type': req_type, 'chunks': [c.hex() for c in chunks], 'disconnect_after': disc},
             'native_violations': v[:3], 'what': v[0]['what'] if v else '', 'finding': v[0].get('finding') if v else None}
